@@ -2043,6 +2043,8 @@ class Interp:
                 return {"invariant": self.contract.loop_all}, ordinal
             return None, ordinal
         lc = c.loops.get(ordinal)
+        if lc is not None and "invariant" not in lc and c.loop_all:
+            lc = dict(lc, invariant=c.loop_all)
         if lc is None and c.loop_all:
             lc = {"invariant": c.loop_all}
         elif lc is None and self.contract is not None and self.contract.loop_all:
